@@ -444,9 +444,9 @@ func runC07(r *Run) {
 		}
 		// correspondence with the model
 		var mo []struct {
-			Committed bool            `json:"committed"`
-			Notifs1   [][]Notif1Row   `json:"notifs1"`
-			Notifs2   [][]Notif2Row   `json:"notifs2"`
+			Committed bool          `json:"committed"`
+			Notifs1   [][]Notif1Row `json:"notifs1"`
+			Notifs2   [][]Notif2Row `json:"notifs2"`
 		}
 		cs := map[string]interface{}{"model": ts.modelJSON(), "monitors": mons, "txns": txns}
 		if err := r.Mdl.Call(map[string]interface{}{"fn": "dbHistory", "model": ts.modelJSON(), "txns": txns, "monitors": mons}, &mo); err != nil {
